@@ -18,8 +18,10 @@ from .. import common as C
 from . import _an as A
 
 PROP = "C05"
-GEN_REGIONS = ["CoreKernels"]
+GEN_REGIONS = ["CoreKernels", "Analysis", "Utils"]
 THEOREMS = {
+    # the request arithmetic of compute_single_bin as translated each run IS the model (segmentation) / the requested frequency (omega)
+    "SpecKitV.Props.AnalysisGen": ["gen_single_bin_seg_eq_model", "gen_single_bin_omega_eq"],
     "SpecKitV.Lemmas.AnalyzerGlue": [
         "Model.coreStep_spec", "Model.coreLoop_eq_map", "Model.cachesOk_empty",
         "Model.band_commutes", "Model.band_commutes_zip", "Model.bandFilter_sublist",
@@ -802,6 +804,21 @@ def correspondence(ctx) -> C.Part:
             else:
                 P.disagreements.append(dict(case, what="starts", navg_arg=xavg, exact_tie=exact, impl_K=len(D_impl), model_K=len(D_model),
                                             impl=D_impl[:12], model=D_model[:12]))
+        # the segmentation as translated from compute_single_bin's own source on this run
+        gans = drv.ask(f"genseg {N} {L} {C.f2h(olap_used)}")
+        P.cases += 1
+        P.hit("genseg")
+        try:
+            gk, gd = gans.split(" | ")
+            D_gen = [int(v) for v in gd.split()]
+            ok = int(gk) == len(D_gen) and D_gen == D_impl
+        except Exception:
+            D_gen, ok = [], False
+        if not ok:
+            if (len(D_impl) != len(D_gen) and near and not exact) or (len(D_impl) == len(D_gen) and D_gen and starts_tie(N, L, len(D_impl))):
+                P.unstable += 1
+            else:
+                P.disagreements.append(dict(case, what="generated starts", impl_K=len(D_impl), impl=D_impl[:12], generated=gans[:200]))
         if t < 2:
             P.sample(dict(case, K=len(D_impl), starts_head=D_impl[:5]))
         # (freq, fres) form: the segment length is round-half-even(fs/fres), at least 1
